@@ -337,6 +337,11 @@ def run_case(case, driver, stop_at_first=True):
     for g, gen in enumerate(case["gens"]):
         if done():
             break
+        if case.get("relay") and g and g % case["relay"][1] == 0:
+            # checkpoint / resume between two generations: the copy continues exactly like the original
+            import copy
+            import pickle
+            es = copy.deepcopy(es) if case["relay"][0] == "deepcopy" else pickle.loads(pickle.dumps(es))
         ranking = np.array(gen["perm"], dtype=np.int64)
         mu = int(gen["mu"])
         pre = snapshot(strategy, es)
@@ -623,6 +628,8 @@ def gen_case(rng, tier, strategy=None):
         gens.append({"perm": perm, "mu": mu})
     case = {"strategy": strategy, "dim": dim, "batch": batch, "dtype": dtype, "sigma0": sigma0, "x0": x0, "lb": lb, "ub": ub,
             "layout": layout, "seed": rng.randrange(1 << 30), "gens": gens}
+    if rng.random() < 0.3:
+        case["relay"] = [rng.choice(["deepcopy", "pickle"]), rng.choice([1, 2, 3])]
     if rng.random() < 0.45:
         case["reset_after"] = rng.randrange(ngen)
         x1 = [round(rng.uniform(-1, 1), 3) for _ in range(dim)]
